@@ -10,7 +10,9 @@
    One action per clf.exchange() call and its outcome:
        Send(h, cc)            clf.exchange(data) called: h = hash of the bytes, cc = command class
        Answer(rk)             the tag executed the command and the answer arrived (rk = "rack": ISO-DEP R(ACK)
-                              answering an R(NAK) = "I have not seen your block")
+                              answering an R(NAK) = "I have not seen your block"; rk = "wtx": ISO-DEP S(WTX) request,
+                              the S(WTX) response that follows (cc = "S") belongs to the same attempt of the same command;
+                              after a fault in that exchange the recovery block of the command is due, not the S(WTX) again)
        Fault(kind, ex)        nfc.clf.TimeoutError / TransmissionError / ProtocolError raised by clf.exchange
                               (ex: the tag had executed the command before the answer was lost)
        Ret(kind, errno, val)  how the public operation ended
@@ -53,11 +55,14 @@ DoSend(s, P, h, cc) ==
         [s1 EXCEPT !.att = s.att + 1, !.ph = "sent"]
     ELSE IF s.ph = "reack" THEN                              \* ISO-DEP: retransmission after R(ACK)
         [VIf(s, h # s.cur, "no-retry") EXCEPT !.att = s.att + 1, !.ph = "sent"]
+    ELSE IF s.ph = "wtx" THEN                                \* ISO-DEP: the S(WTX) request is answered inside the try of the
+        [VIf(s, cc # "S", "no-retry") EXCEPT !.ph = "sent"]  \* same attempt (tt4.py:96-99, 150-153): i is not incremented
     ELSE V(s, "send-while-sent")
 
 DoAnswer(s, P, rk, ex) ==
     IF s.ph # "sent" THEN V(s, "answer-without-send")
     ELSE IF rk = "rack" THEN [s EXCEPT !.ph = "reack"]
+    ELSE IF rk = "wtx" THEN [s EXCEPT !.ph = "wtx", !.ex = s.ex + (IF ex THEN 1 ELSE 0)]
     ELSE LET s1 == [s EXCEPT !.ex = s.ex + (IF ex THEN 1 ELSE 0), !.ph = "idle"] IN
          VIf(s1, s1.ex > 1 + s1.fAfter, "executed-twice")
 
